@@ -67,8 +67,8 @@ class Sock:
             raise OSError(9, "Bad file descriptor")
         data = bytes(data)
         n = len(data)
-        self.nsend = getattr(self, "nsend", 0) + 1
-        fault = getattr(self, "send_faults", {}).get(self.nsend)
+        self.send_calls = getattr(self, "send_calls", 0) + 1
+        fault = getattr(self, "send_faults", {}).get(self.send_calls)
         if fault is not None:
             # a write fault: `fault[0]` bytes reach the wire, then the call fails (timeout or broken pipe)
             part = data[:fault[0]]
